@@ -413,15 +413,17 @@ func runEscape(j *Job, out *Out, workDir string) {
 		lap("hash")
 		localityWalk(eo, state, st, prog, goRoots(prog, state))
 		lap("walk")
+		// The fixpoint check comes before the law and monotonicity probes: those apply transfer functions to
+		// weakened graphs and summaries, which creates load nodes in the functions' shared node groups and would
+		// make a later re-processing see another state than the analysis left.
+		eo.NotFixed = escape.VerifReprocess(ea)
+		lap("reprocess")
 		rng := &lawRng{x: uint64(j.LawSeed)*0x9e3779b97f4a7c15 + 1}
 		if j.Laws > 0 {
 			checkLaws(eo, ea, rng, j.Laws)
 			checkActiveMonotonicity(eo, ea, rng, j.Laws)
 		}
-		// last, because it re-runs transfer functions in place
 		lap("laws")
-		eo.NotFixed = escape.VerifReprocess(ea)
-		lap("reprocess")
 	})
 	for m := range mono {
 		eo.Mono = append(eo.Mono, m)
